@@ -272,3 +272,14 @@ Fixpoint kept_suffix (keep : rel -> bool -> bool) (r : rel) (s : rel) (d : bool)
 
 Definition kept_from (keep : rel -> bool -> bool) (r : rel) (e : rel * ekind * bool) : bool :=
   let '(q, _, d) := e in kept_suffix keep r (skipn (length r) q) d.
+
+(* ---- a directory is dispatched before anything inside it ----
+   scanning the selected entries in walk order with the set of directories
+   already dispatched: every entry's parent directory has been seen *)
+Fixpoint parents_first (seen : list rel) (L : list (rel * ekind * bool)) : bool :=
+  match L with
+  | [] => true
+  | (q, k, _) :: rest =>
+      existsb (rel_eqb (removelast q)) seen &&
+      parents_first (match k with EDir => q :: seen | _ => seen end) rest
+  end.
